@@ -166,6 +166,17 @@ def make_lossless(spec, rng):
     return spec
 
 
+def make_twin(spec, rng):
+    t = copy.deepcopy(spec)
+    g = t["parent"]["genome"]
+    g["seq"] = g["seq"].translate(str.maketrans("ACGTacgt", "CATGcatg"))
+    for gene in t["genes"]:
+        q = gene.get("qualifiers") or {}
+        q["note"] = ["twin"]
+        gene["qualifiers"] = q
+    return t
+
+
 def gen_case(seed, idx, tier="quick"):
     rng = engine.rng_for(seed, PROP, idx)
     cfg = TIERS[tier]
@@ -203,8 +214,13 @@ def gen_case(seed, idx, tier="quick"):
     seeds = cfg["node_seeds"]
     a = rng.choice(seeds)
     b = rng.choice([s for s in seeds if s != a] or seeds)
+    # earlier activity in the same exporter / importer process: another caller exported (and another file was parsed)
+    # a "strain twin" first - same annotation, same names, other bases and coordinates shifted by one exon
+    prior = None
+    if rng.random() < 0.35:
+        prior = [make_twin(colls[0], rng)]
     return {"specs": colls, "args": args, "parse_leg": parse_leg, "hs_a": a, "hs_b": b, "faults": rng.random() < cfg["fault_p"],
-            "reader_chunk": rng.choice([1, 7, 64, 4096]), "warm": rng.random() < 0.4}
+            "reader_chunk": rng.choice([1, 7, 64, 4096]), "warm": rng.random() < 0.4, "prior": prior}
 
 
 # ---------------------------------------------------------------------------------------------------------------
@@ -229,6 +245,13 @@ def h_export(req):
         colls = [build.build_collection(s)[0] for s in req["specs"]]
     except Exception as e:
         return {"build_error": type(e).__name__}
+    if req.get("prior"):
+        try:
+            pw = simdisk.SimWriter()
+            _export([build.build_collection(sp)[0] for sp in req["prior"]], req["args"], pw)
+            out["prior_text"] = pw.getvalue()
+        except Exception as e:
+            out["prior_error"] = type(e).__name__
     w = simdisk.SimWriter()
     try:
         _export(colls, req["args"], w)
@@ -315,6 +338,17 @@ def h_import(req):
 
     text = req["text"]
     out = {"hashseed": os.environ.get("PYTHONHASHSEED")}
+    if req.get("prior_text"):
+        # a long-lived importer: it parsed another file earlier in this process
+        ppath = simdisk.materialise(req["prior_text"], suffix=".gff3")
+        try:
+            list(ParsedAnnotationRecord.parsed_annotation_records_to_model(
+                list(parse_gff3_embedded_fasta(ppath) if req["fasta"] else parse_standard_gff3(ppath))))
+            out["prior_parsed"] = True
+        except Exception as e:
+            out["prior_parse_error"] = type(e).__name__
+        finally:
+            os.unlink(ppath)
     path = simdisk.materialise(text, suffix=".gff3")
     try:
         try:
@@ -943,7 +977,7 @@ def _cmp_gene(eg, gg):
 
 def run_case(case):
     nd = node.nodes()
-    req = {"op": "c11.export", "specs": case["specs"], "args": case["args"], "faults": case["faults"], "warm": case["warm"]}
+    req = {"op": "c11.export", "specs": case["specs"], "args": case["args"], "faults": case["faults"], "warm": case["warm"], "prior": case.get("prior")}
     a = nd.call(case["hs_a"], req)
     stats = collections.Counter()
     fs = []
@@ -955,6 +989,7 @@ def run_case(case):
         return fs, dict(stats), engine.plan_digest(a)
     t1 = "".join(a["t1"])
     stats["exports"] += 1
+    stats["stale_exporter(exported a strain twin first)"] += int("prior_text" in a)
     stats["mode_" + case["specs"][0]["parent"]["mode"]] += 1
     stats["with_fasta"] += int(case["args"]["add_sequences"])
     wf, rows = check_wellformed(t1, case)
@@ -982,7 +1017,8 @@ def run_case(case):
     stats["episodes_with_identical_content_twins(parse leg skipped)"] += int(twins and case["parse_leg"])
     if case["parse_leg"] and not twins:
         imp = nd.call(case["hs_b"], {"op": "c11.import", "text": t1, "fasta": case["args"]["add_sequences"], "args": case["args"],
-                                     "reader_chunk": case["reader_chunk"], "reader_seed": 7})
+                                     "reader_chunk": case["reader_chunk"], "reader_seed": 7, "prior_text": a.get("prior_text")})
+        stats["stale_importer(parsed another file first)"] += int(bool(imp.get("prior_parsed")))
         stats["parse_legs"] += 1
         stats["fasta_reader_runs"] += int("fasta_plain" in imp)
         rp = check_reparse(case, imp)
@@ -1209,6 +1245,8 @@ def evidence(agg, tier, seed, wall, batches):
             "max_writes_per_file_W": st["write_fault_W_max"],
             "short_read": "not applicable to extract_seqrecords_from_gff3_fasta: it only iterates lines and calls read() without a size, which must return everything; the FASTA section is read through SimReader and through a plain reader and both results compared (" + str(st["fasta_reader_runs"]) + " runs)",
             "hashseed(importer differs)": st["hashseed_differs"],
+            "stale_exporter(exported a strain twin earlier in the same process)": st["stale_exporter(exported a strain twin first)"],
+            "stale_importer(parsed another file earlier in the same process)": st["stale_importer(parsed another file first)"],
         },
         "reach_probes": {
             "rows_checked_by_independent_reader": st["rows_checked"], "parse_legs": st["parse_legs"], "reexports": st["reexports"],
